@@ -596,6 +596,11 @@ func c03Systems(tier string) []*BXSystem {
 	// delay function (used when a failing execution opens the breaker)
 	df := Spec{Kind: KBreaker, FT: 1, FC: 1, ST: 1, SC: 2, BDelay: D, DelayFn: func(failsafe.ExecutionAttempt[int]) time.Duration { return 70 }}
 	out = append(out, &BXSystem{Name: "C03/delayfn " + df.String(), Ops: baseOps[:11], New: func() BXRun { return newCBRun(df) }})
+	// the "stay open until closed manually" idiom: the largest possible delay
+	for _, huge := range []time.Duration{math.MaxInt64, 250 * 365 * 24 * time.Hour} {
+		hs := Spec{Kind: KBreaker, FT: 1, FC: 1, BDelay: huge}
+		out = append(out, &BXSystem{Name: "C03/huge-delay " + hs.String(), Ops: []string{"succ", "fail", "acq", "execOk", "execErr", "open", "halfopen", "close", "t+1"}, New: func() BXRun { return newCBRun(hs) }})
+	}
 	// different alignments of the clock with the window slices
 	for _, off := range []int64{3, 9} {
 		tp := Spec{Kind: KBreaker, FT: 2, FC: 2, FPeriod: P, BDelay: D}
